@@ -107,8 +107,8 @@ Definition SITE_HASH_UNWRAP : N := 4.      (* delete_pending_transaction: hash_f
 Definition SITE_SLIP_EXPECT : N := 5.      (* generate_slips: slips.get_mut(key).expect(..) / staking unwrap *)
 Definition SITE_GP_SUB : N := 6.           (* genesis_period - 1 *)
 Definition SITE_NOLAN_ADD : N := 7.        (* nolan_in += amount / collected += amount *)
-Definition SITE_PAY_SUM : N := 8.          (* payments.iter().sum() *)
-Definition SITE_REQ_ADD : N := 9.          (* total_payment + with_fee *)
+Definition SITE_PAY_SUM : N := 8.          (* (before 2da67eb) payments.iter().sum(); unused *)
+Definition SITE_REQ_ADD : N := 9.          (* (before 2da67eb) total_payment + with_fee; unused *)
 Definition SITE_PENDING_ASSERT : N := 10.  (* add_to_pending asserts / unwraps *)
 Definition SITE_SNAPSHOT_ASSERT : N := 11. (* update_from_balance_snapshot: assert_ne!(utxoset_key, [0; 59]) *)
 
@@ -221,8 +221,10 @@ Definition unwind_tx (dbg : bool) (bid : N) (w : wallet) (txi : N) (t : tx) : re
   do w1 <- scan (fun w o =>
                    if (0 <? s_amt o) && (s_pk o =? w_pk w) then delete_slip dbg w o
                    else Ok w) w (t_to t);
+  (* the spent output goes back under its own coordinates; block id 0 is ignored *)
   scan (fun w i =>
-          if (0 <? s_amt i) && (s_pk i =? w_pk w) then add_slip dbg w bid txi i true
+          if (0 <? s_amt i) && (s_pk i =? w_pk w) && (0 <? s_bid i)
+          then add_slip dbg w (s_bid i) (s_txo i) i true
           else Ok w) w1 (t_from t).
 
 Fixpoint txs_loop (f : wallet -> N -> tx -> res wallet) (w : wallet) (txi : N) (l : list tx)
@@ -303,10 +305,11 @@ Record btx := mkBT { bt_from : list slip; bt_to : list slip }.
 
 Inductive create_out := Built (t : btx) | ErrInvalidInput | ErrNotFound.
 
-Fixpoint sum64 (dbg : bool) (site : N) (acc : N) (l : list N) : res N :=
+(* payments.iter().try_fold(0, checked_add) *)
+Fixpoint sum_checked (acc : N) (l : list N) : option N :=
   match l with
-  | [] => Ok acc
-  | x :: t => do a <- add64 dbg site acc x; sum64 dbg site a t
+  | [] => Some acc
+  | x :: t => if acc + x <? W64 then sum_checked (acc + x) t else None
   end.
 
 (* add_from_slip / add_to_slip keep at most u8::MAX slips *)
@@ -314,18 +317,22 @@ Definition cap255 {A} (l : list A) : list A := firstn 255 l.
 
 Definition create (dbg : bool) (w : wallet) (order : list key) (keys payments : list N)
            (fee latest gp : N) : res (wallet * create_out) :=
-  do total <- sum64 dbg SITE_PAY_SUM 0 payments;
+  match sum_checked 0 payments with
+  | None => Ok (w, ErrInvalidInput)
+  | Some total =>
   if negb (Nlen payments =? Nlen keys) then Ok (w, ErrInvalidInput) else
   let avail := w_balance w in
   let fee' := if avail <? fee then 0 else fee in
-  do req <- add64 dbg SITE_REQ_ADD total fee';
+  if negb (total + fee' <? W64) then Ok (w, ErrInvalidInput) else
+  let req := total + fee' in
   if avail <? req then Ok (w, ErrNotFound) else
   do r <- (if req =? 0 then Ok (w, [fresh_slip (w_pk w) 0 TY_NORMAL], [])
            else generate_slips dbg w order req latest gp);
   let '(w', ins, outs) := r in
   (* keys.pop() / payments.pop(): payment outputs in reverse order *)
   let pays := map (fun kp => fresh_slip (fst kp) (snd kp) TY_NORMAL) (rev (combine keys payments)) in
-  Ok (w', Built (mkBT (cap255 ins) (cap255 (outs ++ pays)))).
+  Ok (w', Built (mkBT (cap255 ins) (cap255 (outs ++ pays))))
+  end.
 
 (* ---- add_to_pending ---- *)
 Definition add_to_pending (w : wallet) (first_from_pk : option N) (is_gt : bool) (h : option N)
@@ -420,9 +427,9 @@ Definition create_staking (dbg : bool) (w : wallet) (sorder uorder : list key)
                    (index_from 0 (cap255 (stake_outputs (w_pk w) amount collected false))))).
 
 (* ---- update_from_balance_snapshot / reset ----
-   The snapshot replaces slips, unspent_slips and the balance (staking_slips and
-   pending_txs are NOT cleared by the code); every slip of the snapshot, whatever its
-   type, becomes an unspent slip keyed by its CACHED key; `slips.insert` replaces the
+   The snapshot replaces slips, unspent_slips, staking_slips and the balance (pending_txs
+   is kept); every slip of the snapshot is keyed by its CACHED key and filed as add_slip
+   files it (BlockStake -> staking set, Bound -> neither); `slips.insert` replaces the
    entry of a key that occurs twice and only the first occurrence is counted. *)
 Definition snap_insert (dbg : bool) (w : wallet) (s : slip) : res wallet :=
   let k := s_key s in
@@ -430,12 +437,17 @@ Definition snap_insert (dbg : bool) (w : wallet) (s : slip) : res wallet :=
   let x := mkWS k (s_amt s) (s_bid s) (s_txo s) true (s_idx s) false (s_ty s) in
   if mhas k (w_slips w) then
     Ok (mkW (w_pk w) (mset k x (w_slips w)) (w_unspent w) (w_staking w) (w_balance w) (w_pending w))
+  else if s_ty s =? TY_BLOCKSTAKE then
+    Ok (mkW (w_pk w) (mset k x (w_slips w)) (w_unspent w) (kinsert k (w_staking w))
+            (w_balance w) (w_pending w))
+  else if s_ty s =? TY_BOUND then
+    Ok (mkW (w_pk w) (mset k x (w_slips w)) (w_unspent w) (w_staking w) (w_balance w) (w_pending w))
   else
     do b <- add64 dbg SITE_BAL_ADD (w_balance w) (s_amt s);
     Ok (mkW (w_pk w) (mset k x (w_slips w)) (kinsert k (w_unspent w)) (w_staking w) b (w_pending w)).
 
 Definition update_from_snapshot (dbg : bool) (w : wallet) (l : list slip) : res wallet :=
-  fold_res (snap_insert dbg) (mkW (w_pk w) [] [] (w_staking w) 0 (w_pending w)) l.
+  fold_res (snap_insert dbg) (mkW (w_pk w) [] [] [] 0 (w_pending w)) l.
 
 (* Wallet::reset with keep_keys = true *)
 Definition reset (w : wallet) : wallet := mkW (w_pk w) [] [] [] 0 [].
